@@ -407,10 +407,14 @@ def run(ctx, rep, model=None):
                 refusers.append(fu.name)
     T1, T2, T3 = MI.ModelObj("type:registered"), MI.ModelObj("type:other-registered"), MI.ModelObj("type:unregistered")
     calls_d = []
-    reg = {T1: lambda *a: calls_d.append(("dumper1",) + a), T2: lambda *a: calls_d.append(("dumper2",) + a)}
+    def _by_name(a, k):
+        # registered functions all take (obj, stream): the call may name its arguments
+        return tuple(a) + tuple(k[n_] for n_ in ("obj", "stream")[len(a):] if n_ in k)
+    reg = {T1: lambda *a, **k: calls_d.append(("dumper1",) + _by_name(a, k)),
+           T2: lambda *a, **k: calls_d.append(("dumper2",) + _by_name(a, k))}
 
-    def refuse(*a):
-        calls_d.append(("refused",) + a)
+    def refuse(*a, **k):
+        calls_d.append(("refused",) + _by_name(a, k))
         raise MI.Raised("TypeError")
     glob = {"_dump_registry": reg}
     for r_ in refusers:
@@ -454,6 +458,9 @@ def run(ctx, rep, model=None):
             if isinstance(par, ast.Call) and any(a is n for a in par.args) and A.call_name(par) not in ("len", "str", "repr", "hash", "id"):
                 # handed to the selected dumper (the model evaluation above checks which callee that is)
                 continue
+            if isinstance(par, ast.keyword) and isinstance(getattr(par, "_parent", None), ast.Call) and \
+                    A.call_name(par._parent) not in ("len", "str", "repr", "hash", "id"):
+                continue          # the same, passed by keyword
             stray.append(n)
     emits = [c for c in A.calls(f_dump.node) if isinstance(c.func, ast.Attribute) and c.func.attr in ("append", "extend", "write")]
     ok_only = not stray and not emits
@@ -537,7 +544,7 @@ def run(ctx, rep, model=None):
             reads.append(n)
             return tag
         stream_obj = MI.ModelObj("stream")
-        glob_l = {"IMM_INTS_LOADER": {b"\x55": 5}, "_load_registry": {b"\x01": lambda st, lcalls=lcalls: (lcalls.append(st), "L1")[1]}}
+        glob_l = {"IMM_INTS_LOADER": {b"\x55": 5}, "_load_registry": {b"\x01": lambda stream=None, lcalls=lcalls: (lcalls.append(stream), "L1")[1]}}
         try:
             got = MI.call_function(f_load.node, [stream_obj], {"__calls__": {"%s.read" % sp: rd_}, "__globals__": glob_l,
                                                              "__global_lookup__": sentinel_globals})
